@@ -154,3 +154,23 @@ func specDivPow10(v uint64, k int) uint64 {
 //@ func shortDur
 //@   props C20
 //@   ensures [C20.total] len(result) >= 1 && len(result) <= 40
+
+// ---- the parser's digit scanners (C20, partial): both consume exactly the leading [0-9]* of their input;
+// what is left starts with a non-digit (or is empty). leadingFraction never fails; leadingInt fails only
+// on overflow. (These are the two clauses the accept/reject agreement with time.ParseDuration rests on;
+// the agreement itself is not decided, see DESIGN 10.4.)
+
+//@ func leadingFraction
+//@   props C20
+//@   ensures [C20.frac-digits] len(rem) <= len(s) && forall(k, 0, len(s) - len(rem), s[k] >= 48 && s[k] <= 57)
+//@   ensures [C20.frac-rest] len(rem) == 0 || rem[0] < 48 || rem[0] > 57
+//@   ensures [C20.frac-suffix] forall(k, 0, len(rem), rem[k] == s[len(s) - len(rem) + k])
+//@   loop 1 invariant 0 <= i && i <= len(s) && forall(k, 0, i, s[k] >= 48 && s[k] <= 57)
+
+//@ func leadingInt[string]
+//@   props C20
+//@   requires [C20.errvar] !isnil(errLeadingInt)
+//@   ensures [C20.int-digits] implies(isnil(err), len(rem) <= len(s) && forall(k, 0, len(s) - len(rem), s[k] >= 48 && s[k] <= 57) && (len(rem) == 0 || rem[0] < 48 || rem[0] > 57))
+//@   ensures [C20.int-suffix] implies(isnil(err), forall(k, 0, len(rem), rem[k] == s[len(s) - len(rem) + k]))
+//@   ensures [C20.int-range] implies(isnil(err), x <= 9223372036854775808)
+//@   loop 1 invariant 0 <= i && i <= len(s) && forall(k, 0, i, s[k] >= 48 && s[k] <= 57) && x <= 9223372036854775808
